@@ -193,6 +193,7 @@ def make_scheduler(ctor):
     else:
         rungs = [[(int(s), int(l)) for s, l in sys_] for sys_ in ctor["bracket_rungs"]]
         sch = SynchronousHyperbandScheduler(cs, bracket_rungs=rungs, **kw)
+        _scramble(rungs)  # the caller goes on using (and changing) its own list: the scheduler must not see that
     stub = StubSearcher(cs, METRIC, ctor["mode"])
     sch._searcher = stub
     sch._initialize_searcher()
@@ -515,8 +516,9 @@ def run_manager(spec):
                 rungs_first_bracket=[(int(s), int(l)) for s, l in ctor["rungs_first"]], mode=ctor["mode"],
                 num_brackets_per_iteration=ctor.get("num_brackets"))
         else:
-            mgr = SynchronousHyperbandBracketManager(
-                [[(int(s), int(l)) for s, l in sys_] for sys_ in ctor["bracket_rungs"]], mode=ctor["mode"])
+            own = [[(int(s), int(l)) for s, l in sys_] for sys_ in ctor["bracket_rungs"]]
+            mgr = SynchronousHyperbandBracketManager(own, mode=ctor["mode"])
+            _scramble(own)  # the caller goes on using (and changing) its own list: the manager must not see that
     except Exception as e:  # noqa
         lines.append((header, {"err": errname(e)}))
         events.append({"ev": "ctor-error"})
@@ -678,6 +680,13 @@ def compare(inp, impl, model):
 
 # ---------------------------------------------------------------------------------
 # monitors (direct readings of the property statements on the implementation trace)
+
+
+def _scramble(bracket_rungs):
+    """what a caller may do with ITS list of rung systems after it has built a scheduler from it"""
+    for sys_ in bracket_rungs:
+        sys_[:] = [(n + 3, l + 1) for n, l in sys_]
+    bracket_rungs.append([(1, 1)])
 
 
 def _key(mode, m):
